@@ -67,6 +67,15 @@ extern zidx_t leaps_before_ui32(const uint32_t fld[], size_t nfld, uint32_t key)
 extern zidx_t leaps_before_si32(const int32_t fld[], size_t nfld, int32_t key);
 
 /**
+ * Map the 64-bit stamp T onto the key space of the int32_t fields,
+ * stamps beyond that space compare like the sentinels at either end. */
+static inline int32_t
+leaps_si32_key(int64_t t)
+{
+	return t > INT32_MAX ? INT32_MAX : t < INT32_MIN ? INT32_MIN : (int32_t)t;
+}
+
+/**
  * Return last leap transition before KEY in a uint64_t field FLD. */
 extern zidx_t leaps_before_ui64(const uint64_t fld[], size_t nfld, uint64_t key);
 
